@@ -156,7 +156,7 @@ def render(beh, layout='spaced', rnd=None, final_newline=True, crlf=False, info=
         elif layout == 'comments':
             c = rnd.randrange(6) if rnd else 0
             if c == 0 and not no_nl:
-                gap += b' --c' + bytes([rnd.randrange(33, 127)]) + b'\n'
+                gap += (b' --c' + bytes([rnd.randrange(33, 127)]) + b'\n') if rnd.randrange(5) else rnd.choice((b' --\n', b' //\n'))
             elif c == 1 and not no_nl:
                 gap += b' //' + bytes([rnd.randrange(128, 256)]) + b'\n'
             elif c == 2:
